@@ -23,8 +23,7 @@ THEOREMS = [
     "date_roundtrip", "date_display_out_of_range", "civil_roundtrip",
     "int_roundtrip", "bool_roundtrip", "string_roundtrip",
     "blob_roundtrip_partial", "blob_roundtrip_unsound",
-    "interval_roundtrip_partial", "interval_roundtrip_unsound",
-    "timestamp_roundtrip_partial", "timestamp_roundtrip_unsound",
+    "interval_roundtrip_unsound", "timestamp_roundtrip_unsound", "timestamp_wholesec_roundtrip_unsound",
 ]
 
 # reason tag computed by the model  ->  known-finding signature
@@ -35,6 +34,8 @@ WHY_SIG = {
                      "Timestamp/TimestampTz Display truncates to milliseconds and prints a fraction that from_str rejects (or silently drops sub-millisecond parts)"),
     "iv-subsecond": ("roundtrip:interval:subsecond",
                      "Interval Display drops the sub-second part of `ms`"),
+    "ts-bc-wide-year": ("roundtrip:timestamp:bc-year-over-4-digits",
+                        "Timestamp Display prints years below -9999 as `<5+ digits> … BC` without sign, which `%Y` (at most 4 digits unless signed) rejects"),
     "date-range-panic": ("display:date:out-of-range-panic",
                          "Date Display panics (unwrap on None / i32 overflow) for day counts outside chrono's range"),
     "ts-range-panic": ("display:timestamp:out-of-range-panic",
